@@ -197,7 +197,8 @@ def check_no_shared_state(ctx):
     from icalendar.parser import Contentline, Parameters
     from icalendar.prop import vText
     lines = ['ATTENDEE;CN=Max;ROLE=CHAIR:mailto:a@example.com', 'ORGANIZER;ROLE=CHAIR:mailto:b@example.com',
-             'X-A;K=v;L="x,y",z:1', 'SUMMARY;LANGUAGE=en:text', 'TRIGGER;RELATED=START:-PT15M']
+             'X-A;K=v;L="x,y",z:1', 'SUMMARY;LANGUAGE=en:text', 'TRIGGER;RELATED=START:-PT15M',
+             'X-PLAIN:value', 'UID:1', 'SUMMARY:no parameters here']
     for ln in lines:
         ctx.evaluated(('alias', ln))
         n, p, v = Contentline(ln).parts()
